@@ -70,6 +70,64 @@ theorem later_answers_same (s : State) (o : Obs) (x : Id) (h : CacheOk s x) :
   rw [answers_fresh _ x (cacheOk_observe o x h), answers_fresh s x h]
   exact bboxAnswer_tree s _ (observe_same s o) x
 
+/-- a property getter or query outside the modelled answers (`name`, `kind`, `locks`, `mask`, `effects`,
+`tagged_blocks`, `has_*`, … — the harness enumerates them by reflection) writes nothing at all -/
+theorem getter_writes_nothing (s : State) (x : Id) : (step .current s (.observe (.getter x))).1 = s := rfl
+
+/-- **No read-only call changes which tagged blocks a record carries** — what a later save writes for the layer
+(`SameObs` includes the key lists since the seeded `locks` getter: a read that creates a block). -/
+theorem observe_keeps_blocks (s : State) (o : Obs) : (step .current s (.observe o)).1.blocks = s.blocks :=
+  (observe_pure s o).blocks
+
+/-- … over any sequence of read-only calls: nothing but caches differs afterwards -/
+theorem observations_pure (s : State) (os : List Obs) : SameObs s (runState .current s (os.map .observe)) := by
+  induction os generalizing s with
+  | nil => exact SameObs.refl s
+  | cons o os ih => exact (observe_pure s o).trans (ih (step .current s (.observe o)).1)
+
+/-! ### Degenerate end states: what the fresh answer is when nothing is left
+
+`fresh_history` holds for every guarded history, in particular for those that end with a group emptied, a
+document emptied, or every layer hidden. These are the values the harness compares with a freshly opened twin. -/
+
+theorem extList_all_hidden (s : State) (r : Id → Except Err BBox) (cs : List Id)
+    (h : ∀ c, c ∈ cs → isVis s c = .ok false) : extList r s cs = .ok [] := by
+  induction cs with
+  | nil => rfl
+  | cons c cs ih =>
+    simp only [extList]
+    rw [h c (List.mem_cons_self)]
+    exact ih (fun c' hc' => h c' (List.mem_cons_of_mem _ hc'))
+
+/-- a group none of whose children is visible — in particular a group whose last child was removed — has the
+fresh box `(0,0,0,0)` -/
+theorem nothing_visible_group_answer (s : State) (g : Id) (hk : s.kind g = .group) (hl : s.limit ≠ 0)
+    (h : ∀ c, c ∈ s.children g → isVis s c = .ok false) : bboxAnswer s g = .ok BBox.zero := by
+  obtain ⟨f, hf⟩ := Nat.exists_eq_succ_of_ne_zero hl
+  unfold bboxAnswer extractBbox
+  simp only [State.cont, hk, isCont, hf, extF, extList_all_hidden s _ _ h]
+  simp [unionAll]
+
+/-- a document none of whose layers is visible — in particular an emptied document — answers its canvas -/
+theorem nothing_visible_document_answer (s : State) (d : Id) (hk : s.kind d = .doc) (hl : s.limit ≠ 0)
+    (h : ∀ c, c ∈ s.children d → isVis s c = .ok false) : bboxAnswer s d = .ok (s.box d) := by
+  obtain ⟨f, hf⟩ := Nat.exists_eq_succ_of_ne_zero hl
+  unfold bboxAnswer extractBbox
+  simp only [State.cont, hk, isCont, hf, extF, extList_all_hidden s _ _ h]
+  simp [unionAll]
+
+/-- **never stale in a degenerate end state**: after ANY guarded history, a group in a document that has no
+visible child left answers `(0,0,0,0)`, whatever was cached before -/
+theorem emptied_group_never_stale (ops : List Op) (limit : Nat) (hg : Guarded .current (State.empty limit) ops) (g : Id)
+    (ha : Attached (runState .current (State.empty limit) ops) g)
+    (hk : (runState .current (State.empty limit) ops).kind g = .group)
+    (hl : (runState .current (State.empty limit) ops).limit ≠ 0)
+    (h : ∀ c, c ∈ (runState .current (State.empty limit) ops).children g →
+      isVis (runState .current (State.empty limit) ops) c = .ok false) :
+    (obsBbox (runState .current (State.empty limit) ops) g).2 = .ok BBox.zero := by
+  rw [answers_fresh_history ops limit hg g ha]
+  exact nothing_visible_group_answer _ g hk hl h
+
 /-! ### Concrete states: non-vacuity and the counterexamples of the snapshot -/
 
 /-- document 0 lists [1, 2]: 1 a pixel layer at (0,0,2,2), 2 an empty group; 3 a detached layer at (1,1,3,3) -/
@@ -113,6 +171,29 @@ theorem legacy_hidden_group_below_stale :
 theorem hidden_group_below_refreshed :
     let s := runState .current nested [.observe (.bbox 2), .setVisible 1 false]
     s.cache 2 = none := by decide
+
+/-- the last child of a group removed after every box above it was read: all of them are dropped, the group
+answers `(0,0,0,0)` and the document its canvas -/
+theorem last_child_removed_refreshed :
+    let s := runState .current nested [.observe (.bbox 2), .observe (.bbox 1), .observe (.bbox 0), .deleteLayer 3]
+    s.children 2 = [] ∧ s.cache 2 = none ∧ s.cache 1 = none ∧ s.cache 0 = none ∧
+      (obsBbox s 2).2.toOption = some BBox.zero ∧ (obsBbox s 0).2.toOption = some ⟨0, 0, 8, 8⟩ := by decide
+
+/-- the last visible layer hidden after the document's box was read -/
+theorem last_visible_hidden_refreshed :
+    let s := runState .current demo [.observe (.bbox 0), .setVisible 1 false]
+    s.cache 0 = none ∧ (extractBbox s 0).toOption = some BBox.zero ∧ (obsBbox s 0).2.toOption = some ⟨0, 0, 8, 8⟩ := by
+  decide
+
+/-- the document emptied after its box was read -/
+theorem emptied_document_refreshed :
+    let s := runState .current demo [.observe (.bbox 0), .observe (.bbox 2), .clear 0]
+    s.children 0 = [] ∧ s.cache 0 = none ∧ (obsBbox s 0).2.toOption = some ⟨0, 0, 8, 8⟩ := by decide
+
+/-- non-vacuity of `emptied_group_never_stale` / `nothing_visible_group_answer`: group 2 of `demo` is empty -/
+example : demo.kind 2 = .group ∧ demo.limit ≠ 0 ∧ (∀ c, c ∈ demo.children 2 → isVis demo c = .ok false) ∧
+    bboxAnswer demo 2 = .ok BBox.zero :=
+  ⟨by decide, by decide, by decide, nothing_visible_group_answer demo 2 (by decide) (by decide) (by decide)⟩
 
 theorem demo_inv : Inv demo := by
   have i4 : Inv (runState .current (State.empty 50)
